@@ -1084,3 +1084,80 @@ func ReachingStoresCut(load *ssa.UnOp, cut func(from *ssa.BasicBlock, succ int) 
 	scan(load.Block(), idx(load)-1)
 	return
 }
+
+// PathCount computes the minimum and maximum number of instructions satisfying isTarget executed
+// on any path that starts just after `start` (or at function entry when start is nil) and ends
+// at an instruction satisfying isEnd (typically a Return) — the end instruction itself is not
+// counted. max == -1 means unbounded (a target lies on a cycle that does not pass an end).
+// ok=false when no path reaches an end. Target-free cycles are traversed once.
+func PathCount(fn *ssa.Function, start ssa.Instruction, isTarget, isEnd func(ssa.Instruction) bool) (min, max int, ok bool) {
+	const inf = 1 << 30
+	type res struct {
+		min, max int
+		ok       bool
+	}
+	entryCount := map[*ssa.BasicBlock]int{} // cumulative count when the block was entered (while in progress)
+	inProg := map[*ssa.BasicBlock]bool{}
+	unbounded := false
+	budget := 200000
+	var blk func(b *ssa.BasicBlock, from int, cum int) res
+	blk = func(b *ssa.BasicBlock, from int, cum int) res {
+		budget--
+		if budget < 0 {
+			unbounded = true
+			return res{ok: false}
+		}
+		if from == 0 {
+			if inProg[b] {
+				if cum > entryCount[b] {
+					unbounded = true
+				}
+				return res{ok: false}
+			}
+			inProg[b] = true
+			entryCount[b] = cum
+			defer func() { inProg[b] = false }()
+		}
+		cnt := 0
+		for i := from; i < len(b.Instrs); i++ {
+			in := b.Instrs[i]
+			if isEnd(in) {
+				return res{cnt, cnt, true}
+			}
+			if isTarget(in) {
+				cnt++
+			}
+		}
+		out := res{inf, -inf, false}
+		for _, s := range b.Succs {
+			r := blk(s, 0, cum+cnt)
+			if !r.ok {
+				continue
+			}
+			out.ok = true
+			if r.min+cnt < out.min {
+				out.min = r.min + cnt
+			}
+			if r.max+cnt > out.max {
+				out.max = r.max + cnt
+			}
+		}
+		return out
+	}
+	var r res
+	if start == nil {
+		if len(fn.Blocks) == 0 {
+			return 0, 0, false
+		}
+		r = blk(fn.Blocks[0], 0, 0)
+	} else {
+		r = blk(start.Block(), idx(start)+1, 0)
+	}
+	if !r.ok {
+		return 0, 0, false
+	}
+	if unbounded {
+		return r.min, -1, true
+	}
+	return r.min, r.max, true
+}
